@@ -74,7 +74,44 @@ def coq_list(vals, per=16):
     return "[" + ";\n  ".join(rows) + "]"
 
 
-def regenerate():
+SENSITIVE = set("""fopen fopen64 open open64 openat opendir readdir readdir64 closedir execvp execv execve execlp execl fork vfork popen system
+unlink remove rename mkstemp mkstemp64 mkdir tmpfile tmpfile64 fdopen freopen getenv stat stat64 lstat fstat fstat64 creat chdir socket connect dlopen
+pipe dup2 wait waitpid kill tmpnam mktemp
+hio_open hio_open_file hio_open_file2 make_temp_file unlink_temp_file libxmp_find_instrument_file libxmp_copy_name_for_fopen
+libxmp_check_filename_case libxmp_decrunch""".split())
+
+
+def syscall_inventory():
+    """(object, symbol) pairs: which compiled objects reference which file/process-facing symbols."""
+    d, ar = V.build_lib("asan")
+    pairs = []
+    for o in sorted(os.listdir(d)):
+        if not o.endswith(".o"):
+            continue
+        r = subprocess.run(["nm", "-u", os.path.join(d, o)], capture_output=True, text=True)
+        for l in r.stdout.split("\n"):
+            w = l.split()
+            if len(w) == 2 and w[1] in SENSITIVE:
+                pairs.append((o[:-2].replace("src_", "", 1), w[1]))
+    return sorted(set(pairs))
+
+
+def writable_globals():
+    """symbols in .data/.bss of the compiled objects (process-wide mutable state)"""
+    d, ar = V.build_lib("plain")
+    res = []
+    for o in sorted(os.listdir(d)):
+        if not o.endswith(".o"):
+            continue
+        r = subprocess.run(["objdump", "-t", os.path.join(d, o)], capture_output=True, text=True)
+        for l in r.stdout.split("\n"):
+            w = l.split()
+            if len(w) >= 5 and w[-3] in (".data", ".bss") and " O " in l:
+                res.append((o[:-2].replace("src_", "", 1), w[-1]))
+    return sorted(set(res))
+
+
+def regenerate(with_objects=True):
     c = c_consts()
     out = ["(* GENERATED from /repo's working tree by lib/gentables.py on every run. Do not edit. *)",
            "From Coq Require Import ZArith List.", "Import ListNotations.", "Local Open Scope Z_scope.", ""]
@@ -89,4 +126,10 @@ def regenerate():
     t.append("Definition crc32_A_table : list Z :=\n  %s." % coq_list(int_table("src/depackers/crc32.c", "crc32_A_table"), 8))
     t.append("Definition crc16_IBM_table : list Z :=\n  %s." % coq_list(int_table("src/depackers/crc32.c", "crc16_IBM_table"), 8))
     V.write_if_changed(os.path.join(V.COQ, "Generated", "Tables.v"), "\n".join(t) + "\n")
+    if with_objects:
+        inv = syscall_inventory()
+        sy = ["(* GENERATED from the objects compiled from /repo's working tree (nm -u). Do not edit. *)",
+              "From Coq Require Import String List.", "Import ListNotations.", "Local Open Scope string_scope.", "",
+              "Definition syscall_inventory : list (string * string) :=\n  [" + ";\n   ".join('("%s", "%s")' % p for p in inv) + "]."]
+        V.write_if_changed(os.path.join(V.COQ, "Generated", "Syscalls.v"), "\n".join(sy) + "\n")
     return c
